@@ -33,9 +33,11 @@ RULE = ('random namespaces (3-8 variables of ndim 0-3, axis lengths 2-4, functio
         '4 random syntax trees per namespace (depth <= 5: numbers, variables with indices / numerals / traces, products, one fraction, '
         '+/-, scopes, ^int and ^(scalar), calls with generated axes, gradients, normals, jump/mean/opposite; v1: also _,i gradients, n_i, '
         'delta/$, stacks, multi-argument / generating / consuming calls) rendered to strings; each string is evaluated through `@` and through '
-        'attribute assignment with permuted indices and compared with numpy.einsum on the tree; then N single-character corruptions '
-        '(delete / insert / replace / transpose over the grammar alphabet plus the names in use) are classified by an independent '
-        'recogniser and compared with the outcome of nutils. non-trivial = at least 2 operators (products, sums, fractions, powers, '
+        'attribute assignment with permuted indices and compared with numpy.einsum on the tree; then index / name edits on the tree, '
+        're-use of an already summed index outside the expression, and N single-character corruptions (delete / insert / replace / '
+        'transpose over the grammar alphabet plus the names in use) are classified by an independent recogniser (v2: from the string '
+        'alone; v1: index analyser with length unification on edited trees, lexical rules on corrupted strings) and compared with the '
+        'outcome of nutils. non-trivial = at least 2 operators (products, sums, fractions, powers, '
         'calls, traces, numerals, jump/mean); distinct = SHA-1 of (version, string)')
 ASSUMPTIONS = ['numpy.einsum on the namespace values is the reference meaning of an index-notation tree',
                'floats compared with vlib.tolerance inside a comparison domain (finite, |intermediates| < 1e6, denominators and bases of '
@@ -44,11 +46,14 @@ ASSUMPTIONS = ['numpy.einsum on the namespace values is the reference meaning of
                'upper case indices, trailing underscore) strings are unclassified and only the exception-type clause is checked',
                'extra / leading / trailing spaces are read as a single separator (pinned by the repository tests)',
                'exceptions raised outside the expression modules (nutils.function refusing an argument) are counted, not judged',
-               'v1 corruptions are classified only by lexical rules (unbalanced brackets, unknown symbols); everything else in v1 is '
-               'unclassified (substitutions, ?argument shape inference, omitted indices)']
+               'v1 character corruptions are classified only by lexical rules (unbalanced brackets, unknown symbols); everything else in v1 '
+               'is unclassified (substitutions, ?argument shape inference, omitted indices); v1 rule violations are exercised through '
+               'index / name edits on generated trees, which the v1 index analyser classifies with certainty',
+               'v1 documented refusals other than ExpressionSyntaxError (SyntaxError "no longer supported", NotImplementedError, ValueError '
+               'raised explicitly by Namespace / _eval_ast, TypeError of a called function for a wrong signature) are counted, not judged']
 import os
 BUDGET_S = {'quick': int(os.environ.get('C19_BUDGET_QUICK', 85)), 'thorough': int(os.environ.get('C19_BUDGET_THOROUGH', 1300))}
-NCASES = {'quick': 510, 'thorough': 9000}
+NCASES = {'quick': 420, 'thorough': 9000}
 NBASE = 4
 NCORR = {'quick': 24, 'thorough': 40}
 NMUT = {'quick': 8, 'thorough': 12}
@@ -105,9 +110,6 @@ def run_nutils(R, s, mode, idx=None):
         from nutils import function
         arr = function.Array.cast(arr)     # v1 returns plain python numbers for constant expressions
     return 'accepted', arr
-
-
-DOCUMENTED_V1 = ('SyntaxError', 'NotImplementedError', 'AmbiguousAlignmentError')
 
 
 def judge_exception(R, kind, detail, exc, s):
@@ -280,7 +282,7 @@ def case_config(seed, index):
     return rng, version, mode
 
 
-def run_case(seed, index, tier, res, only=None):
+def run_case(seed, index, tier, res):
     rng, version, mode = case_config(seed, index)
     spec = core.gen_nsspec(rng, mode, version)
     R = core.Realised(spec, version)
@@ -291,16 +293,16 @@ def run_case(seed, index, tier, res, only=None):
     for k in range(NBASE):
         brng = rng_for(seed, 'c19', index, 'base', k)
         if version == 2:
-            base_v2(R, brng, tier, res, pend, dict(base, k=k), only)
+            base_v2(R, brng, tier, res, pend, dict(base, k=k))
         else:
-            v1.base_v1(R, brng, tier, res, pend, dict(base, k=k), only, HOOKS)
+            v1.base_v1(R, brng, tier, res, pend, dict(base, k=k), HOOKS)
         if len(pend.items) > 60:
             pend.flush()
     pend.flush()
     return R
 
 
-def base_v2(R, rng, tier, res, pend, case0, only):
+def base_v2(R, rng, tier, res, pend, case0):
     G = gen.Gen(rng, R, maxdepth=4, version=2)
     try:
         tree, free = G.expression()
